@@ -1,6 +1,7 @@
 import DuneVerif.Model.C10
 import DuneVerif.Model.C10Prog
 import DuneVerif.Model.C10Hist
+import DuneVerif.Model.C10Mem
 /-! line-protocol driver for C10:  `<k> <op> <hexA> [<hexB>|<dec>]`
     and histories  `<k> prog <hexA> <hexB> : stmt;stmt;…`  (statements of Model/C10Prog.lean and, round four,
     Model/C10Hist.lean: `m<op> d ty y` (d = d op y), `r<op> d ty y` (d = y op d), `c<op> d ty y` (d op= y) with a
@@ -117,7 +118,7 @@ def runProg (k : Nat) : Regs → List Stmt → List String → String
   | r, [], acc => ";".intercalate acc.reverse ++ " => " ++ showV r.a ++ " " ++ showV r.b
   | r, st :: sts, acc =>
     if tooSlow4 (ndigits k) r st then ";".intercalate ("SKIP" :: acc).reverse
-    else match step4 k r st with
+    else match stepMem k r st with   -- `d op= s` on the store of d (Model/C10Mem.lean), everything else as `step4`
       | none => "bad-op"
       | some (r', o) => runProg k r' sts (showObs o :: acc)
 
